@@ -35,7 +35,7 @@ MIN_EVENTS = {"MarkerExpression._get_specifier": 300, "MarkerExpression.from_spe
               "_normalize_python_version_specifier": 100}
 MIN_SHAPES = {"from_specifier:none": 5, "from_specifier:atom": 100, "get_specifier:python_version": 100,
               "get_specifier:python_full_version": 100, "get_specifier:in-list": 5}
-SHARDS = {"quick": 2, "thorough": 8}
+SHARDS = {"quick": 6, "thorough": 16}
 
 GRID = [(X, Y, Z) for X in (2, 3, 4) for Y in range(0, 14) for Z in (0, 1, 2, 5, 9, 10, 18)]
 
@@ -157,6 +157,34 @@ def setup(ctx):
                            "in_specifier": not exp, "group": atom.op}, live={"atom": atom, "env": env})
                 return
 
+    # the view actually *exposed* by an atom (the `specifier` property): also covers views attached from outside
+    # (from_specifier / dataclasses.replace) that never go through _get_specifier
+    seen_views = set()
+    orig_prop = E.__dict__["specifier"]
+
+    def spec_getter(self):
+        r = orig_prop.fget(self)
+        from ..monitor import STATE
+
+        if not STATE.depth and self.name in ("python_version", "python_full_version") and id(self) not in seen_views:
+            seen_views.add(id(self))
+            if len(seen_views) > 200000:
+                seen_views.clear()
+            STATE.depth += 1
+            try:
+                STATE.counts["MarkerExpression.specifier"] += 1
+                post_get((self,), {}, r)
+            except Exception:  # noqa: BLE001
+                STATE.errors["MarkerExpression.specifier"] += 1
+            finally:
+                STATE.depth -= 1
+        return r
+
+    from ..monitor import STATE as _ST
+
+    _ST.installed.append((E, "specifier", orig_prop))
+    E.specifier = property(spec_getter)
+    _ST.counts.setdefault("MarkerExpression.specifier", 0)
     install(E, "_get_specifier", post_get)
     install(E, "from_specifier", post_from)
     install(single, "_normalize_python_version_specifier", post_norm)
@@ -246,11 +274,38 @@ def run(ctx):
             ctx.sample({"atom": 'python_version ~= "3.8"', "specifier_view": str(parse_marker('python_version ~= "3.8"').specifier)})
             ctx.sample({"from_specifier": ["python_full_version", ">=3.8,<4.0"],
                         "atom": str(MarkerExpression.from_specifier("python_full_version", parse_version_specifier(">=3.8,<4.0")))})
+    # every (python_version atom, python_full_version atom) pair incl. literal-on-the-left spellings, merged with
+    # and / or; afterwards the specifier view of every atom of the result is read (the view a caller would get)
+    ctx.stratum = "main"
+    MM.clear_caches()
+    pv_atoms = [f'python_version {op} "{v}"' for v in ("3.8", "3.10", "3") for op in ("==", "!=", "<", "<=", ">", ">=")]
+    pfv_atoms = []
+    for v in ("3.8.0", "3.8", "3.10.0", "3.8.1"):
+        for op in ("==", "!=", "<", "<=", ">", ">="):
+            pfv_atoms.append(f'python_full_version {op} "{v}"')
+            pfv_atoms.append(f'"{v}" {op} python_full_version')
+    pairs = list(itertools.product(pv_atoms, pfv_atoms))
+    for idx, (x, y) in enumerate(pairs):
+        if idx % ctx.nshards != ctx.shard:
+            continue
+        for op in ("and", "or"):
+            for tree in ([op, ["m", x], ["m", y]], [op, ["m", y], ["m", x]]):
+                MM.clear_caches()  # each pair is the *first* merge of its kind (the merge cache ignores operand order)
+                ctx.cases += 1
+                ctx.current_case = {"kind": "mtree", "tree": tree}
+                got = []
+                MM.eval_marker_tree(ctx, tree, lambda t, v, kids: got.append(v), prop=PROP, watchdog=5.0)
+                for v in got[-1:]:
+                    for atom in MW.walk_atoms(v):
+                        try:
+                            atom.specifier  # monitored property access
+                        except Exception:  # noqa: BLE001
+                            pass
     # bridge calls issued by the merge machinery
     ctx.stratum = "pyin"
     MM.clear_caches()
     rnd = ctx.rnd
-    cfg = MW.Cfg(extras=False, release=False, strin=False, pyin=True)
+    cfg = MW.Cfg(extras=False, release=False, strin=False, pyin=True, reversed_ok=True)
     t0 = ctx.elapsed()
     for i in range(600 if ctx.tier == "quick" else 10000):
         if ctx.elapsed() - t0 > (10 if ctx.tier == "quick" else 120):
@@ -258,7 +313,15 @@ def run(ctx):
         tree = MM.gen_marker_tree(rnd, cfg, 6)
         ctx.cases += 1
         ctx.current_case = {"kind": "mtree", "tree": tree}
-        MM.eval_marker_tree(ctx, tree, None, prop=PROP, watchdog=5.0)
+        got = []
+        MM.eval_marker_tree(ctx, tree, lambda t, v, kids: got.append(v), prop=PROP, watchdog=5.0)
+        for v in got[-1:]:
+            for atom in MW.walk_atoms(v):
+                if getattr(atom, "name", "") in ("python_version", "python_full_version"):
+                    try:
+                        atom.specifier
+                    except Exception:  # noqa: BLE001
+                        pass
     ctx.current_case = None
 
 
@@ -287,4 +350,11 @@ def replay(ctx, case):
             MarkerExpression.from_specifier(case["name"], r)
     else:
         ctx.stratum = "pyin"
-        MM.eval_marker_tree(ctx, case["tree"], None, prop=PROP, watchdog=60.0)
+        got = []
+        MM.eval_marker_tree(ctx, case["tree"], lambda t, v, kids: got.append(v), prop=PROP, watchdog=60.0)
+        for v in got[-1:]:
+            for atom in MW.walk_atoms(v):
+                try:
+                    atom.specifier
+                except Exception:  # noqa: BLE001
+                    pass
